@@ -44,14 +44,30 @@ pub async fn history(a: &mut LocalAccount, seed: u64, with_attachment: bool) -> 
     if with_attachment {
         let dir = std::path::Path::new("/verif/run/tmp").join(format!("c19src-{seed}-{}", std::process::id()));
         std::fs::create_dir_all(&dir)?;
-        let body: Vec<u8> = (0..rng.range(10, 5000)).map(|_| rng.below(256) as u8).collect();
-        let path = dir.join("attachment.bin"); std::fs::write(&path, &body)?;
-        let secret: sos_vault::secret::Secret = path.clone().try_into()?;
-        let meta = sos_vault::secret::SecretMeta::new("attachment".into(), secret.kind());
-        a.create_secret(meta, secret, AccessOptions { folder: Some(default), ..Default::default() }).await?;
+        // one to three attachments, in two folders
+        for k in 0..rng.range(1, 4) {
+            let body: Vec<u8> = (0..rng.range(10, 5000)).map(|_| rng.below(256) as u8).collect();
+            let path = dir.join(format!("attachment-{k}.bin")); std::fs::write(&path, &body)?;
+            let secret: sos_vault::secret::Secret = path.clone().try_into()?;
+            let meta = sos_vault::secret::SecretMeta::new(format!("attachment-{k}"), secret.kind());
+            a.create_secret(meta, secret, AccessOptions { folder: Some(if k == 1 { f1 } else { default }), ..Default::default() }).await?;
+        }
         let _ = std::fs::remove_dir_all(&dir);
     }
     Ok(())
+}
+
+/// the attachments an account serves: (blob name, digest of the decrypted content), sorted
+pub async fn attachments(a: &LocalAccount) -> Result<Vec<(String, String)>, String> {
+    use sos_sync::StorageEventLogs;
+    let files = { let log = a.file_log().await.map_err(|e| e.to_string())?; let l = log.read().await; sos_reducers::FileReducer::new(&*l).reduce(None).await.map_err(|e| e.to_string())? };
+    let mut blobs = vec![];
+    for f in files.iter() {
+        let d = match a.download_file(f.vault_id(), f.secret_id(), f.file_name()).await { Ok(b) => hex::encode(&sha256(&b)[..8]), Err(e) => format!("error:{e}") };
+        blobs.push((format!("{}/{}/{}", f.vault_id(), f.secret_id(), f.file_name()), d));
+    }
+    blobs.sort();
+    Ok(blobs)
 }
 
 /// (decrypted attachments, servers, account preferences) of an account on a backend target
